@@ -1,3 +1,4 @@
+import TongoProofs.Lemmas.CellHash
 import TongoModel.Message
 import TongoModel.CellHashSpec
 import TongoModel.CellOrd
@@ -32,7 +33,8 @@ theorem spec_reprHash_normCell (H : List UInt8 → List UInt8) (dest : MsgAddr) 
   simp only [Spec.hashAt]
   rw [hashLevel_mask0]
   simp [Spec.hashLevel, tyOrdinary, tyPruned, canonRepr, Spec.hashAtL, Spec.depthAtL, Spec.childrenPart,
-    Spec.childLevel, Spec.isMerkle, tyMerkleProof, tyMerkleUpdate]
+    Spec.childLevel, Spec.isMerkle, tyMerkleProof, tyMerkleUpdate, CellHashLemmas.paddedData_eq,
+    CellHashLemmas.depthBytes_eq]
 
 /-- for a level-0 body the hash entering the canonical representation is the body's representation hash -/
 theorem spec_body_hash (H : List UInt8 → List UInt8) (bits : List Bool) (refs : List Cell) :
@@ -49,7 +51,8 @@ theorem canonRepr_injective (H : List UInt8 → List UInt8) (d1 d2 : MsgAddr) (b
     (h1 : (normBits d1).length ≤ 1023) (h2 : (normBits d2).length ≤ 1023)
     (h : canonRepr H d1 b1 = canonRepr H d2 b2) :
     normBits d1 = normBits d2 ∧ Spec.hashAt H b1 0 = Spec.hashAt H b2 0 := by
-  unfold canonRepr Spec.descr at h
+  unfold canonRepr at h
+  rw [CellHashLemmas.descr_eq, CellHashLemmas.descr_eq] at h
   simp only [List.cons_append, List.nil_append, List.cons.injEq] at h
   obtain ⟨_, hd2, hrest⟩ := h
   have hdd : ((normBits d1).length + 7) / 8 + (normBits d1).length / 8 =
